@@ -78,13 +78,15 @@ TEMPLATES = {
     "after_blockname": ("GROUP = g", "\na = 1\nEND_GROUP\nb = 2\nEND\n"),
     "in_seq": ("a = (1,", " 2)\nb = 2\nEND\n"),
     "after_delim": ("a = 1;", "b = 2\nEND\n"),
+    # directly after a dash continuation inside a quoted string (the default parser class removes those from the text)
+    "after_dash": ('a = "x-\n', 'y"\nb = 2\nEND\n'),
     "after_end": ("a = 1\nEND\n", ""),
     "after_end_far": ("a = 1\nEND\nxyz ", " tail"),
 }
 LEXEME_START = {"first": 0, "name": 0, "unquoted": 4, "quoted": 4, "comment": 0, "units": 6, "between": 6,
                 "after_lexeme": 10, "after_end": 0, "after_end_far": 0,
                 "after_endgroup": 16, "after_endgroup_sp": 16, "after_endname": 30, "after_begin": 0, "after_blockname": 8,
-                "in_seq": 6, "after_delim": 5}
+                "in_seq": 6, "after_delim": 5, "after_dash": 4}
 WS = " \t\n\r\v\f"
 LISTMODS = ("first", "name", "after_begin", "after_blockname", "after_delim", "after_endname")
 
@@ -94,7 +96,8 @@ class Enforce(Harness):
     alphabet = "omni"
     functions = FUNCS
     bounds = ("one symbolic character over alphabet 'omni' (U+0000-02FF plus selected higher code points) at a "
-              "fixed syntactic position of a two-statement label")
+              "fixed syntactic position of a two-statement label; loader = the dialect's strict parser, or (via=grammar) "
+              "pvl.loads(text, grammar=<the dialect's grammar>)")
     must_reach = ("loads", "LexerError")
 
     def inputs(self, ctx):
@@ -112,6 +115,9 @@ class Enforce(Harness):
             if self.dialect in ("ODL", "PDS3", "Omni"):
                 cond = zand([cond, znot(B(_isspace(c))), znot(ws)])
             return cond, [("a", "x" + c + "y")]
+        if p == "after_dash":
+            # what the string becomes depends on the dialect's continuation rule: only "rejected or not" is asserted
+            return False, []
         if p == "comment":
             return zand([o != 42, o != 47]), [("a", 1)]
         if p == "units":
@@ -157,8 +163,18 @@ class Enforce(Harness):
         must_fail = zand([before_end, znot(spec_allowed(self.dialect, o))])
         must_succeed, items = self.expected(L, c)
         must_succeed = zand([must_succeed, znot(must_fail)])
+        via = getattr(self, "via", "parser")
         try:
-            m = L.pvl.loads(doc, parser=dia["parser"])
+            if via == "grammar":
+                # the documented short form: the default parser class with the dialect's grammar
+                kw = {}
+                if self.pos in LISTMODS:
+                    from .common import list_classes
+                    M_, G_, O_ = list_classes(L)
+                    kw = dict(module_class=M_, group_class=G_, object_class=O_)
+                m = L.pvl.loads(doc, grammar=dia["grammar"], **kw)
+            else:
+                m = L.pvl.loads(doc, parser=dia["parser"])
         except L.exceptions.LexerError as e:
             # consistency of the error's position attributes with the text
             pos = e.pos
@@ -169,14 +185,25 @@ class Enforce(Harness):
                 0 <= pos, pos <= len(doc),
             ])
             where = zimp(must_fail, zand([LEXEME_START[self.pos] <= pos, pos <= i + 1, int_eq(e.lineno, line_of_i)]))
-            if self.dialect in ("Omni", "ISIS"):
+            if self.pos == "after_dash":
+                # the quoted string spans two lines: the error is reported within the lexeme, on either line
+                where = zimp(must_fail, zand([LEXEME_START[self.pos] <= pos, pos <= i + 1]))
+            if self.dialect in ("Omni", "ISIS") or (via == "grammar" and self.pos == "after_dash"):
                 # OmniParser removes dash continuations from the text before lexing: positions refer to that text
                 cons = True
+                if self.pos == "after_dash":
+                    where = True
+            elif via == "grammar":
+                # ... which the symbolic character creates when it is a dash before a line end
+                cons = zor([o == 45, cons])
+                where = zor([o == 45, where])
             return Outcome("LexerError", zand([znot(must_succeed), cons, where]),
                            {"pos": e.pos, "lineno": e.lineno, "colno": e.colno})
         except L.exceptions.ParseError:
             return Outcome("ParseError", zand([znot(must_fail), znot(must_succeed)]), None)
         got = list(m.items())
+        if via == "grammar":
+            must_succeed = False          # the default parser class repairs and decodes differently: only rejection is asserted
         same = len(got) == len(items) and zand([zand([str_eq(k1, k2), veq(v1, v2)])
                                                  for (k1, v1), (k2, v2) in zip(got, items)])
         return Outcome("loads", zand([znot(must_fail), zimp(must_succeed, same)]), {"items": got})
@@ -251,6 +278,8 @@ def obligations(tier):
     for d in ("PVL", "ODL", "PDS3", "ISIS", "Omni"):
         for p in positions:
             obs.append(Enforce(dialect=d, pos=p))
+            if d in ("PVL", "ODL", "PDS3"):
+                obs.append(Enforce(dialect=d, pos=p, via="grammar"))
     nmax = 6 if tier == "quick" else 10
     for n in range(0, nmax + 1):
         for k in (0, 1, 2):
